@@ -243,11 +243,11 @@ Inductive doc :=
 | DMap (l : list (dkey * doc)).
 
 (* the archive-dependent choices of the scopes modelled here:
-   - RapidJSON's OpenArrayScope / OpenObjectScope send a null through MismatchedTypesPolicy, MsgPack's
-     ReadArraySize / ReadMapSize exclude nil from it;
-   - a null where a string is expected: RapidJSON LoadValue(string_view) treats it as a mismatched
-     type, MsgPack ReadValue(string_view) skips it (not loaded), CSV delivers the empty cell as an
-     empty string (loaded);
+   - null where an array / object is expected: excluded from MismatchedTypesPolicy ("not loaded") by MsgPack's
+     ReadArraySize / ReadMapSize and, since fix a88d81b, by RapidJSON's OpenArrayScope / OpenObjectScope
+     (before: mismatch); the CSV archive has no such case (flag kept for the record);
+   - a null where a string is expected: RapidJSON LoadValue(string_view) (since fix cde2a3b) and MsgPack
+     ReadValue(string_view) skip it (not loaded), CSV delivers the empty cell as an empty string (loaded);
    - the element index GetPath() of an array scope shows while its first element is being loaded
      (RapidJSON / MsgPack have already advanced: 1; CSV row index: 0) *)
 Inductive nullstr := NullStrMismatch | NullStrSkip | NullStrEmpty.
